@@ -155,8 +155,6 @@ var arithKernels = []kernelSpec{
 		kind: tgtReturn, index: 0, params: []string{"hash", "numBytesPerHash"}},
 	{lean: "hllCount", file: "base_hyperloglog.go", recv: "AbstractHyperLogLog", fn: "getRegisterIndexAndCount",
 		kind: tgtReturn, index: 1, params: []string{"hash", "numBytesPerHash"}},
-	{lean: "hllStoredValueMem", file: "hyperloglog.go", recv: "HyperLogLog", fn: "Update",
-		kind: tgtArg, name: "util.Max", index: 1, params: []string{"count"}},
 	{lean: "hllStoredIndexRedis", file: "hyperloglog_redis.go", recv: "HyperLogLogRedis", fn: "Update",
 		kind: tgtArg, name: "h.updateRegisters", index: 0, params: []string{"registerIndex"}},
 	{lean: "hllStoredValueRedis", file: "hyperloglog_redis.go", recv: "HyperLogLogRedis", fn: "Update",
